@@ -3,7 +3,8 @@
 # files are what the checks read; this script is only an authoring aid.
 set -e
 cd "$(dirname "$0")"
-for pkg in adaptation; do
-  out=/repo/pkg/$pkg/contracts_verif.go
-  cat ${pkg}_*.txt > $out
+declare -A dirs=( [adaptation]=pkg/adaptation [api]=pkg/api [stub]=pkg/stub [net]=pkg/net [multiplex]=pkg/net/multiplex [generate]=pkg/runtime-tools/generate )
+for pkg in "${!dirs[@]}"; do
+  ls ${pkg}_*.txt >/dev/null 2>&1 || continue
+  cat ${pkg}_*.txt > /repo/${dirs[$pkg]}/contracts_verif.go
 done
